@@ -289,6 +289,7 @@ def check_row(res):
         return {"clause": "unexpected exception", "observed": res["error"], "msg": res.get("msg")}
     any_row = False
     must_raise = False
+    may_raise = False
     for i, t in enumerate(cfg["tout"]):
         if not t > res["t_bh"]:
             continue
@@ -311,6 +312,8 @@ def check_row(res):
         if not shortcut and kicked > share * (1 + 1e-9) + 1e-9:
             must_raise = True
             continue
+        if not shortcut and kicked > 0 and kicked >= share * (1 - 1e-9) - 1e-9:
+            may_raise = True      # budget met to rounding (e.g. BH_ret_dyn=1 and kicks removing 1e-10 Msun): either outcome is right
         if res.get("error"):
             continue
         any_row = True
@@ -325,7 +328,7 @@ def check_row(res):
                     "shortcut": shortcut, "kicked": repr(kicked)}
     if must_raise and res.get("error") != "ValueError":
         return {"clause": "kicks exceeding the ejection budget must raise ValueError", "observed": res.get("error")}
-    if res.get("error") == "ValueError" and not must_raise:
+    if res.get("error") == "ValueError" and not must_raise and not may_raise:
         # borderline budgets (kicked ≈ share) may legitimately go either way
         return {"clause": "ValueError although kicks do not exceed the budget", "msg": res.get("msg")}
     return None if (any_row or must_raise) else "skip"
